@@ -5,7 +5,7 @@ From Coq Require Import List Ascii ZArith Bool.
 From CGV Require Import Base.PyBase Base.PyVal Base.NxGraph Dialect.DialectImpl Reader.ReaderImpl Reader.Grammar
      Reader.ReaderCheck Reader.Lin Reader.ReaderSim Reader.ReaderMult Reader.ReaderUnit Reader.ReaderUnitLong Reader.ReaderEnd
      Gen.ReaderEnumGen Reader.ReaderSmall
-     Reader.ReaderTrack Reader.ReaderGSegs Reader.ReaderGLong Reader.ReaderX Reader.ReaderG2 Reader.ReaderG2Ast.
+     Reader.ReaderTrack Reader.ReaderGSegs Reader.ReaderGLong Reader.ReaderX Reader.ReaderG2 Reader.ReaderG2Ast Reader.ReaderG2Wf.
 Import ListNotations.
 Open Scope Z_scope.
 
@@ -167,25 +167,23 @@ Proof. vm_compute. repeat split. eexists. split; reflexivity. Qed.
     directly in front of it; the complement is stale_recipe).  The multiplied branch may stand at any depth, behind sibling
     branches, and may be followed by closing parentheses.  Then the reader model on the SHORTHAND returns exactly the
     denotation of the LONGHAND ([denote] runs the token machine on [expand_branches a], the branch multipliers written
-    out); and when the longhand is itself a string of the grammar (decidable), reading the shorthand = reading the
-    longhand, same graph, same numbering.
+    out); and for well-formed ASTs reading the shorthand = reading the longhand, same graph, same numbering.
     Missing from the full statement (named): (a) branches with a multiplier that are not simple chains - the three open
     classes nested_in_unit / ring_in_unit, and the two harmless shapes "multiplier 1 on a branch with nested branches or
     rings" and "the one nested shape the code expands correctly" (bounded only: C05_small); (b) stale_recipe; (c) NODE
-    multipliers: C05_ast_expand_partial below writes them out too ([expand]), under decidable conditions on the longhand.
+    multipliers: C05_ast_expand_partial below writes them out too ([expand]).
     Texts with braces (base graphs) and without (coarse fragment texts) are both covered. *)
 Theorem C05_branch_ast_partial : forall fo braces a, units_ok fo a = true -> read_cgsmiles fo (print braces a) = denote fo a.
 Proof. exact reader_sim_units_gen. Qed.
-Theorem C05_branch_ast_longhand_partial : forall fo braces a, units_ok fo a = true ->
-  wf fo (expand_branches a) = true -> has_branch_mult (expand_branches a) = false ->
+Theorem C05_branch_ast_longhand_partial : forall fo braces a, units_ok fo a = true -> wf fo a = true ->
   read_cgsmiles fo (print braces a) = read_cgsmiles fo (print braces (expand_branches a)).
-Proof. exact reader_units_longhand. Qed.
-(** ... and with EVERY multiplier written out ([Grammar.expand]: branch and node multipliers), when the written-out
-    strings are strings of the grammar (three decidable conditions on the longhands) *)
-Theorem C05_ast_expand_partial : forall fo braces a, units_ok fo a = true ->
-  forallb mpos_item (expand_branches a) = true -> wf fo (expand a) = true -> has_branch_mult (expand a) = false ->
+Proof. exact reader_units_longhand_wf. Qed.
+(** ... and with EVERY multiplier written out ([Grammar.expand]: branch and node multipliers) - C05's own sentence.
+    No hypothesis about the longhand is left: that [expand_branches a] and [expand a] are again strings of the grammar
+    follows from [wf a] (Reader/ReaderG2Wf.v: expand_branches_rg, expand_nodes_rg) *)
+Theorem C05_ast_expand_partial : forall fo braces a, units_ok fo a = true -> wf fo a = true ->
   read_cgsmiles fo (print braces a) = read_cgsmiles fo (print braces (expand a)).
-Proof. exact reader_units_expand. Qed.
+Proof. exact reader_units_expand_wf. Qed.
 (** the flat level behind it: multiplied branches followed by closings, items that close several branches *)
 Theorem C05_branch_flat_closings : forall fo l, g2segs_ok fo l = true ->
   read_cgsmiles fo ("{"%char :: g2segs_str l ++ ["}"%char]) = denote_g2 fo l.
